@@ -162,7 +162,7 @@ Definition slow (st : rstate) (c : chunk) : rstate * list event :=
   let used1 := if present then r_used st else cast_usize (r_used st + chunk_len c) in
   let '(batch, rq2) := take_run (length rq1) (w32 (r_cum st + 1)) rq1 in
   let '(a1, evs, n, _) := proc_batch (r_app st) batch in
-  (mkR (r_conn st) (w32 (r_cum st + n)) rq2 a1 (cast_usize (used1 - sum_len (firstn (Z.to_nat n) batch))), evs).
+  (mkR (r_conn st) (w32 (r_cum st + n)) rq2 a1 (cast_usize (used1 - sum_len (firstn (Z.to_nat n) batch))) (r_prsn st), evs).
 
 Lemma rq_mem_true t q : rq_mem t q = true -> exists e, In e q /\ c_tsn e = t.
 Proof.
@@ -313,7 +313,7 @@ Lemma step_inv k st i :
 Proof.
   intros HI Hok. pose proof HI as [Hk Hconn Hcum Hrq Hnx Happ].
   unfold step, connected. rewrite Hconn. cbn [SctpState_eqb].
-  destruct i as [c|t|t hc|valid| |n pairs|sid|]; cbn in Hok; try contradiction.
+  destruct i as [c|t|t hc|valid| |n pairs|sid| |v]; cbn in Hok; try contradiction.
   - destruct (recv_data_inv k st c HI Hok) as (m & H1 & H2). exists m. split; [exact H1|].
     intros c' E. injection E as <-. exact H2.
   - exists 0%nat. split; [apply advances_none; exact HI|discriminate].
@@ -402,7 +402,7 @@ Proof.
     destruct (on_established (a_chans (r_app st))) as [chans' evs]. cbn [fst snd] in *. split.
     - repeat split; cbn [r_rq r_app a_streams a_chans]; try assumption. eapply chans_sim_trans; eassumption.
     - intros sid. rewrite log_of_app, Hpre, H2. reflexivity. }
-  destruct i as [c|t|t hc|valid| |n pairs|sid|]; cbn in Hi; try contradiction.
+  destruct i as [c|t|t hc|valid| |n pairs|sid| |v]; cbn in Hi; try contradiction.
   - destruct (connected st); cbn [fst snd]; (split; [repeat split; assumption|reflexivity]).
   - destruct (connected st); cbn [fst snd]; (split; [repeat split; assumption|]).
     + reflexivity.
